@@ -47,7 +47,7 @@ ASSUMPTIONS = [
     "ordering among concurrently running enters/exits and the wrapper type of a surfaced error are unspecified",
     "body 'cancelled' = cancellation requested by the harness and delivered at the body's next suspension point",
 ]
-MINIMUMS = {"monitor:exit-once": 3000, "monitor:cleanup-surfaces": 1000, "monitor:enter-error-surfaces": 200, "cases_with_exit_error": 1000, "cases_with_enter_error": 300, "body_cancelled": 200, "cancelled_while_entering_with_some_entered": 50, "cancellations_injected_around_scope_entry_and_exit": 595, "second_cancellations_injected": 396, "enter_errors_among_value_equal_resources_some_entered": 30}
+MINIMUMS = {"monitor:exit-once": 3000, "monitor:cleanup-surfaces": 1000, "monitor:enter-error-surfaces": 200, "cases_with_exit_error": 1000, "cases_with_enter_error": 300, "body_cancelled": 200, "cancelled_while_entering_with_some_entered": 50, "cancellations_injected_around_scope_entry_and_exit": 595, "second_cancellations_injected": 396, "enter_errors_among_value_equal_resources_some_entered": 30, "body_exceptions_handed_back_by_two_or_more_resources": 50}
 JOBS = {"quick": 4, "thorough": 16}
 OPTIMIZED_SHARDS = {"quick": 2, "thorough": 8}  # the same cases once more under `python -O`
 LEVEL_TEXT = (
@@ -58,7 +58,7 @@ LEVEL_TEXT = (
 LEVEL_NOTE = "Trusted: the disposable doubles and call-log checker (hv/gen/programs.py, hv/props/c08.py), gate scheduler, VirtualLoop."
 
 ENTERS = ("ok", "gate", "raise", "gate-raise")
-EXITS = ("ok", "gate", "raise", "gate-raise", "raise-base", "true")
+EXITS = ("ok", "gate", "raise", "gate-raise", "raise-base", "true", "hand-back", "gate-hand-back")
 BODIES = ("return", "raise-exc", "cancel-self", "raise-base", "raise-frozen")
 SAMPLE = {"quick": 2500, "thorough": 40_000}
 DFS_CAP = 130
@@ -261,8 +261,14 @@ def judge(R: Recorder, case: dict[str, Any], chooser: Chooser, W: World, status:
             R.monitor("body-exception", isinstance(caught, asyncio.CancelledError), where={**w0, "kind": "pending-cancellation-lost"}, detail=f"the body requested cancellation of its task and returned; the block then raised {caught!r}", case=rec)
         elif raised is None:
             R.monitor("body-exception", caught is None, where={**w0, "kind": "spurious-exception"}, detail=f"body returned, cleanup was fault free, caller caught {caught!r}", case=rec)
+        elif isinstance(raised, asyncio.CancelledError) and any(ex.endswith("hand-back") for _, ex, _ in specs):
+            # a cancellation raised again by a resource is re-created by asyncio (a task that ends with CancelledError is a cancelled
+            # task): which CancelledError object the caller sees is asyncio's business - it has to be a cancellation
+            R.monitor("body-exception", isinstance(caught, asyncio.CancelledError), where={**w0, "kind": "exception-replaced-or-swallowed"}, detail=f"body raised {raised!r}, caller caught {caught!r}", case=rec)
         else:
-            R.monitor("body-exception", caught is raised, where={**w0, "kind": "exception-replaced-or-swallowed"}, detail=f"body raised {raised!r}, caller caught {caught!r}", case=rec)
+            R.monitor("body-exception", caught is raised, where={**w0, "kind": "exception-replaced-or-swallowed", "handed_back_by": min(sum(1 for _, ex, _ in specs if ex.endswith("hand-back")), 2)},
+                      detail=f"body raised {raised!r}, caller caught {caught!r}; resources that re-raise the exception they are handed: {[i for i, (_, ex, _) in enumerate(specs) if ex.endswith('hand-back')]}", case=rec)
+            R.count("body_exceptions_handed_back_by_two_or_more_resources", sum(1 for _, ex, _ in specs if ex.endswith("hand-back")) >= 2)
     if R.want_sample(body) and any_fault and n >= 2:
         R.sample({"case": case, "schedule": list(sched.released), "events": [list(map(str, e)) for e in ev], "caught": repr(caught)}, kind=body)
 
